@@ -36,7 +36,8 @@ RULE = ("Clouds: N in 1..300 (quick: 80% <= 60), 1..6 coordinate dims + 0..3 fea
         "filters).  Camera: K = [[fx,0,cx],[0,fy,cy],[0,0,1]], |fx|,|fy| in 1e-2..1e4 both signs, cx,cy in "
         "+-1e3, |z| in 1e-2..1e2 both signs, SE3 extrinsics (|t| <= 10), batch shapes broadcast between "
         "points / K / T; pixel2point(point2pixel(P),z,K)=P within 16 eps (|x|+|cx z/fx|), converse within "
-        "16 eps (|u-cx|+|cx|), point2pixel vs the pinhole formula with a forward bound, reprojerr(P, "
+        "16 eps (|u-cx|+|cx|), point2pixel vs the pinhole formula u = fx X/Z + cx of T*P within 16 eps (|fx X/Z|+|cx|) plus the "
+        "propagated rounding 16 eps (2|P|+|t|) of T*P, pixel2point vs ((u-cx)z/fx, (v-cy)z/fy, z) likewise, reprojerr(P, "
         "point2pixel(P,K,T), K, T) == 0 exactly for none/sum/norm, homo2cart(cart2homo(p)) == p bitwise for "
         "any finite p (zeros, subnormals, huge) and cart2homo = [p,1].  Non-trivial: a removed point that is "
         "not in the last rows; k >= 2; >= 2 points sharing a voxel; non-identity permutation; negative focal "
@@ -134,13 +135,6 @@ def _prefix_mask(mask):
 
 def _rowkey(a):
     return np.ascontiguousarray(a).tobytes()
-
-
-def _sorted_rows(a):
-    a = np.asarray(a, dtype=np.float64)
-    if a.shape[0] == 0:
-        return a
-    return a[np.lexsort(a.T[::-1])]
 
 
 _sizes_q = st.one_of(st.integers(1, 12), st.integers(1, 60), st.integers(1, 60), st.integers(1, 60), st.integers(1, 300))
@@ -457,6 +451,7 @@ class Voxel(Sub):
                 return
             Y = tu.npy(y)
             seen = set()
+            bycell = cents.setdefault(tag, {})
             for r in Y:
                 c = tuple(int(x) for x in np.floor((r[:vdim] - pmin) / np.array(voxel)))
                 if case["random"]:
@@ -479,13 +474,15 @@ class Voxel(Sub):
                 if not rec.check(c not in seen, "voxel:cell_twice", "%svoxel %s is represented by two output rows" % (tag, c)):
                     return
                 seen.add(c)
+                bycell[c] = r
             if not rec.check(len(seen) == len(groups), "voxel:cell_missing", tag + "an occupied voxel has no output row"):
                 return
-            cents[tag] = Y
         if not case["random"]:
-            a, b = _sorted_rows(cents[""]), _sorted_rows(cents["perm:"])
+            # the two outputs correspond cell by cell (same summands, possibly another summation order)
             tol = 8 * (shared + 2) * eps * np.maximum(np.abs(pts).max(0), 1e-300)
-            rec.check(np.all(np.abs(a - b) <= tol), "voxel:equivariance", "centroids for the permuted cloud differ as a set of rows")
+            bad = [c for c in gkeys if not np.all(np.abs(cents[""][c] - cents["perm:"][c]) <= tol)]
+            rec.check(not bad, "voxel:equivariance", lambda: "centroid of voxel %s changes when the cloud is permuted: %s vs %s" % (
+                bad[0], cents[""][bad[0]].tolist(), cents["perm:"][bad[0]].tolist()))
             rec.notes["voxel_err/tol"] = worst
 
     def simplify(self, case):
@@ -614,11 +611,21 @@ class KnnFilter(Sub):
                              "reading A gives %s%s" % (tag, k, radius, case["ord"], N, kept, i, Y[b][i].tolist(), rf["A"][order][i].tolist(),
                                                        "" if rf["B"] is None else ", reading B gives %s" % rf["B"][order][i].tolist()))
                     return
-        if kept:
-            a = np.stack([_sorted_rows(x) for x in outs[""]])
-            bb = np.stack([_sorted_rows(x) for x in outs["perm:"]])
-            tol = 8 * (k + 3) * eps * np.maximum(np.abs(pts).max((0, 1)), 1e-300)
-            rec.check(np.all(np.abs(a - bb) <= tol), "knnf:equivariance", "outputs for the permuted cloud differ as a multiset of rows")
+        for b in range(B if kept else 0):
+            # direct comparison of the two outputs: rows correspond through pi (input order), else as multisets
+            ret = np.nonzero(refs[b]["mask"])[0]
+            pos = {int(i): n for n, i in enumerate(ret)}
+            order = np.array([pos[int(i)] for i in pi if refs[b]["mask"][i]], dtype=int)
+            tol = 8 * (k + 3) * eps * np.maximum(np.abs(pts[b]).max(0), 1e-300)
+            Ya, Yb = outs[""][b], outs["perm:"][b]
+            okr = refs[b]["okA"] if refs[b]["okB"] is None else (refs[b]["okA"] & refs[b]["okB"])
+            dif = np.abs(Yb - Ya[order]) / tol
+            dif[~okr[order]] = 0.0                               # near tie at the k-th neighbour: either resolution is right
+            same = bool(np.all(dif <= 1.0)) or (_match_rows(Yb, Ya, tol) if okr.all() else True)
+            if not okr.all():
+                rec.label("knnf:rows_with_near_ties")
+            if not rec.check(same, "knnf:equivariance", "outputs for the permuted cloud do not correspond to the outputs for the cloud through the permutation"):
+                return
         rec.notes["knnf_err/tol"] = worst
 
     def simplify(self, case):
@@ -784,8 +791,8 @@ class Camera(Sub):
         rec.check(np.array_equal(Bn[..., 2], P[..., 2]), "cam:depth", "pixel2point does not return the given depth as z")
         # pinhole definition
         pref = C.project(P, fx, fy, cx, cy)
-        tolu = 8 * eps * (np.abs(fx * P[..., 0] / P[..., 2]) + np.abs(cx)) + 1e-300
-        tolv = 8 * eps * (np.abs(fy * P[..., 1] / P[..., 2]) + np.abs(cy)) + 1e-300
+        tolu = 16 * eps * (np.abs(fx * P[..., 0] / P[..., 2]) + np.abs(cx)) + 1e-300
+        tolv = 16 * eps * (np.abs(fy * P[..., 1] / P[..., 2]) + np.abs(cy)) + 1e-300
         pxn = tu.npy(px)
         r0 = max(float((np.abs(pxn[..., 0] - pref[..., 0]) / tolu).max()), float((np.abs(pxn[..., 1] - pref[..., 1]) / tolv).max()))
         rec.notes["pinhole"] = r0
@@ -805,7 +812,7 @@ class Camera(Sub):
         rec.check(r2 <= 1.0, "cam:roundtrip_pixel" + (":batchedK" if kbp else ""), lambda: "point2pixel(pixel2point(px, z, K), K) differs from px "
                   "by %.3g x tolerance (fx=%r fy=%r cx=%r cy=%r)" % (r2, case["fx"], case["fy"], case["cx"], case["cy"]))
         bp = C.backproject(upx, depth, fx, fy, cx, cy)
-        tb3 = 8 * eps * np.abs(bp) + 8 * eps * np.abs(np.stack([cx * depth / fx, cy * depth / fy, 0 * depth], -1)) + 1e-300
+        tb3 = 16 * eps * np.abs(bp) + 16 * eps * np.abs(np.stack([cx * depth / fx, cy * depth / fy, 0 * depth], -1)) + 1e-300
         r3 = float((np.abs(tu.npy(pts3) - bp) / tb3).max())
         rec.notes["backproject"] = r3
         rec.check(r3 <= 1.0, "cam:backproject" + (":batchedK" if kbp else ""), lambda: "pixel2point differs from ((u-cx) z/fx, (v-cy) z/fy, z) "
@@ -852,8 +859,8 @@ class Camera(Sub):
         well = np.abs(Z) > 64 * dl                              # depth not dominated by the rounding of T*p
         prw = C.project(Pcam, fxw, fyw, cxw, cyw)
         az = np.abs(Z) + 1e-300
-        tu_ = 8 * eps * (np.abs(fxw * X) / az + np.abs(cxw)) + 2 * dl * (np.abs(fxw) / az + np.abs(fxw * X) / az ** 2) + 1e-300
-        tv_ = 8 * eps * (np.abs(fyw * Y) / az + np.abs(cyw)) + 2 * dl * (np.abs(fyw) / az + np.abs(fyw * Y) / az ** 2) + 1e-300
+        tu_ = 16 * eps * (np.abs(fxw * X) / az + np.abs(cxw)) + 2 * dl * (np.abs(fxw) / az + np.abs(fxw * X) / az ** 2) + 1e-300
+        tv_ = 16 * eps * (np.abs(fyw * Y) / az + np.abs(cyw)) + 2 * dl * (np.abs(fyw) / az + np.abs(fyw * Y) / az ** 2) + 1e-300
         pw = tu.npy(pxw)
         if well.any():
             r4 = max(float((np.abs(pw[..., 0] - prw[..., 0]) / tu_)[well].max()), float((np.abs(pw[..., 1] - prw[..., 1]) / tv_)[well].max()))
@@ -880,7 +887,8 @@ class Camera(Sub):
             e2 = pp.reprojerr(tPw, pxw + _t(shift, dtype), tKk, *((tT,) if case["extr"] else ()))
         if finite:
             tol = 4 * eps * (np.abs(pw) + np.abs(shift))
-            rec.check(np.all(np.abs(tu.npy(e2) + shift) <= tol), "cam:reprojerr_shift", "reprojerr(P, px + s) is not -s")
+            rec.check(np.all(np.abs(np.abs(tu.npy(e2)) - np.abs(shift)) <= tol), "cam:reprojerr_shift",
+                      "reprojerr(P, point2pixel(P) + s) is not +-s (the sign convention is not asserted)")
 
     def simplify(self, case):
         for key in ("batch", "pb", "kb", "kb_p2p", "tb"):
@@ -1001,6 +1009,12 @@ def selftest():
     assert np.allclose(px, [[6.5, 4.5], [5.5, 4.5], [4.5, 6.5], [4.5, 4.5], [6.5, 4.5], [7.8333, 7.8333]], atol=1e-4)
     assert np.allclose(C.backproject(px, obj[:, 2], *K), obj)
     assert np.allclose(C.backproject(np.array([[0.5, 0.0], [5.0, 1.5]]), np.array([5.0, 0.7]), *K), [[-10, -11.25, 5], [0.175, -1.05, 0.7]])
+    # extrinsics convention (docstring example of point2pixel): pixel = project(T * p_world)
+    pose = np.array([0., -8, 0, 0., -0.3827, 0., 0.9239])
+    Mx = R.mat4("SE3", pose)
+    pc = obj @ Mx[:3, :3].T + Mx[:3, 3]
+    assert np.allclose(C.project(pc, *K), [[4.4999, -1.1568], [3.8332, -3.0425], [2.4998, -15.2997], [2.4998, -18.1282],
+                                           [4.4999, -6.8135], [4.9999, 3.4394]], atol=2e-3)
     # the radius picker never returns a radius close to a pairwise distance; voxel construction agrees with floor()
     for sd in range(20):
         r2 = np.random.RandomState(sd)
